@@ -182,15 +182,15 @@ class FrameQueue:
         """Add a `RF24NetworkFrame` to the queue."""
         if len(self._queue) >= self.max_queue_size:
             return False
-        for frm in self._queue:
-            if (
-                frm.header.from_node == frame.header.from_node
-                and frm.header.frame_id == frame.header.frame_id
-                and frm.header.message_type == frame.header.message_type
-            ):
-                return False  # already enqueued this frame
         new_frame = RF24NetworkFrame()
         new_frame.unpack(frame.pack())
+        for frm in self._queue:
+            if (
+                frm.header.from_node == new_frame.header.from_node
+                and frm.header.frame_id == new_frame.header.frame_id
+                and frm.header.message_type == new_frame.header.message_type
+            ):
+                return False  # already enqueued this frame
         self._queue.append(new_frame)
         return True
 
